@@ -13,8 +13,9 @@ CLAIMED = {
              "exact optimiser over proper level assignments judges the returned notation. Includes every "
              "matching on <= 8 (quick) / <= 10 (thorough) positions and every nesting/crossing topology of <= 4 / <= 5 "
              "stems; near-ladders whose optimum needs two-digit levels (real CBC); molecules of up to 110 stems; histories "
-             "on one object and after an earlier failure in the same process; simulated solvers that use a gap tolerance "
-             "when the code requests one. Evidence, not proof: inputs are sampled.",
+             "on one object and after an earlier failure in the same process; the notation of derived objects; near-tie knots "
+             "at genome size; every constructor; log verbosity off/INFO/DEBUG; simulated solvers that act on a gap "
+             "tolerance or a work limit when the code requests one. Evidence, not proof: inputs are sampled.",
         design_ref="DESIGN.md section 3 (C02), 2.3-2.5",
         note="Trusted: the reference optimiser and the exact 0-1 solver in /verif/sim (cross-checked against the "
              "real CBC binary on every run, per solve, by optimal value), pulp 3.1.1 as installed. The exact oracle is "
@@ -28,6 +29,7 @@ CLAIMED = {
              "(refinement against a trivial reference model), with frame checks on every pool member after "
              "every step, independent spec clauses for every query and both removals (never re-running the code "
              "under test), sibling originals with the same sequence or the same pairs, objects rebuilt from an answer of another object, "
+             "conversions with a solver that breaks ties another way, log verbosity and constructors drawn per history, "
              "and every run in a forked child. A separate fault-injecting configuration (solver failures inside calls) "
              "judges purity proper under faults with a narrowly relaxed oracle.",
         design_ref="DESIGN.md section 3 (C12)",
@@ -59,10 +61,12 @@ CLAIMED = {
         text="The interpreter is the nondeterminism source: fresh interpreters under different PYTHONHASHSEED values "
              "(12 quick / 48 thorough incl. 'random' on the whole workload, 16 / 80 more on its light part) each compute "
              "every output kind for the corpus, the package's other command-line tools, generated structures, the adapter on "
-             "generated conflicting annotations, library-level writers and derived PDB inputs (alternate locations, twin "
-             "chains, insertion codes, models) twice "
+             "generated conflicting annotations, the unifier on generated conflicting copies, library-level writers, derived "
+             "PDB inputs (alternate locations, twin chains, insertion codes, models, modified and protonated residues) and "
+             "two-residue fragments under coordinate fuzzing, twice "
              "in-process, each interpreter visiting its items in its own seeded order; all digests of one (input, "
-             "output kind) must agree. Differences that need what ran before in the process are replayed as whole "
+             "output kind) must agree. Interpreters also differ in log verbosity and wall-clock date; commands are run again "
+             "into the same directory. Differences that need what ran before in the process are replayed as whole "
              "interpreter contexts.",
         design_ref="DESIGN.md section 3 (C14)",
         note="Trusted: sha256. Object-address-dependent hashing is sampled by the same fresh interpreters but cannot "
